@@ -277,6 +277,24 @@ theorem baLoop_spec (β : ℝ) (p : List ℝ) (distFn : List (List ℝ) → List
       rw [he]
       simp [Nat.add_assoc, Nat.add_comm 1 k]
 
+/-- The same without assuming anything about `prev`, `dv`: the channel and the counter. -/
+theorem baLoop_fst (β : ℝ) (p : List ℝ) (distFn : List (List ℝ) → List (List ℝ))
+    (close : ℝ → ℝ → Bool) (fuel : ℕ) (W : List (List ℝ)) (prev dv : ℝ) (it : ℕ) :
+    ∃ k, k ≤ fuel ∧
+      (baLoop (fun x => (2 : ℝ) ^ x) β p distFn close fuel W prev dv it).1 = baIter β p distFn k W
+      ∧ (baLoop (fun x => (2 : ℝ) ^ x) β p distFn close fuel W prev dv it).2.2 = it + k := by
+  induction fuel generalizing W prev dv it with
+  | zero => exact ⟨0, le_refl _, by simp [baLoop, baIter_zero]⟩
+  | succ fuel ih =>
+    by_cases hc : close prev dv = true
+    · exact ⟨0, Nat.zero_le _, by rw [baLoop, if_pos hc, baIter_zero]; simp⟩
+    · obtain ⟨k, hk, he1, he2⟩ := ih (baStep (fun x => (2 : ℝ) ^ x) β p distFn W).1 dv
+        (baStep (fun x => (2 : ℝ) ^ x) β p distFn W).2 (it + 1)
+      refine ⟨k + 1, by omega, ?_⟩
+      rw [baIter_succ, baLoop, if_neg hc]
+      simp only
+      exact ⟨he1, by rw [he2]; omega⟩
+
 theorem baRun_spec (β : ℝ) (p : List ℝ) (distFn : List (List ℝ) → List (List ℝ))
     (close : ℝ → ℝ → Bool) (maxIters : ℕ) (W0 : List (List ℝ)) :
     ∃ k, k ≤ maxIters ∧ baRun (fun x => (2 : ℝ) ^ x) β p distFn close maxIters W0
@@ -550,6 +568,441 @@ theorem ba_kkt_optimal (β : ℝ) (p : List ℝ) (W d : List (List ℝ)) (n m : 
   by_cases h0 : vec (outputLaw p W) y = 0
   · exact hkkt y hy h0
   · exact le_of_eq (fixed_constraint β p W d n m hp hW hd hfix y hy h0)
+
+
+/-! ### The returned joint -/
+
+theorem baJoint_isMat (p : List ℝ) (W : List (List ℝ)) (n m : ℕ) (hp : p.length = n)
+    (hW : IsMat W n m) : IsMat (baJoint p W) n m := jointOf_isMat p W n m hp hW
+
+theorem ent_baJoint (p : List ℝ) (W : List (List ℝ)) (n m : ℕ) (hp : p.length = n)
+    (hW : IsMat W n m) (x y : ℕ) (hx : x < n) (hy : y < m) :
+    ent (baJoint p W) x y = vec p x * ent W x y := ent_jointOf p W n m hp hW x y hx hy
+
+theorem baJoint_rowSums (p : List ℝ) (W : List (List ℝ)) (n m : ℕ) (hp : p.length = n)
+    (hW : IsChannel W n m) : rowSums (baJoint p W) = p :=
+  rowSums_eq p W _ n m hp hW.isMat (fun row hr => (hW.row row hr).sum_one)
+    (baJoint_isMat p W n m hp hW.isMat) (fun x hx y hy => ent_baJoint p W n m hp hW.isMat x y hx hy)
+
+theorem baJoint_colSums (p : List ℝ) (W : List (List ℝ)) (n m : ℕ) (hp : p.length = n)
+    (hW : IsMat W n m) (y : ℕ) (hy : y < m) :
+    vec (colSums (baJoint p W)) y = vec (outputLaw p W) y :=
+  colSums_getD p W _ n m hp hW (baJoint_isMat p W n m hp hW)
+    (fun x hx y hy => ent_baJoint p W n m hp hW x y hx hy) y hy
+
+theorem baJoint_nonneg (p : List ℝ) (W : List (List ℝ)) (n m : ℕ) (hp : IsLaw p n)
+    (hW : IsChannel W n m) : ∀ row ∈ baJoint p W, ∀ a ∈ row, 0 ≤ a := by
+  intro row hrow a ha
+  obtain ⟨i, hi, rfl⟩ := List.mem_iff_getElem.mp hrow
+  obtain ⟨j, hj, rfl⟩ := List.mem_iff_getElem.mp ha
+  have hM := baJoint_isMat p W n m hp.len hW.isMat
+  have hi' : i < n := by rw [← hM.len]; exact hi
+  have hj' : j < m := by rw [← hM.row _ (List.getElem_mem hi)]; exact hj
+  have e : ((baJoint p W)[i])[j] = ent (baJoint p W) i j := by
+    simp [ent, vec, List.getD_eq_getElem?_getD, hi, hj]
+  rw [e, ent_baJoint p W n m hp.len hW.isMat i j hi' hj']
+  exact mul_nonneg (hp.vec_nonneg i) (hW.ent_nonneg i j)
+
+/-! ### Hamming distortion -/
+
+theorem hammingDist_isMat (n m : ℕ) : IsMat (hammingDist n m : List (List ℝ)) n m := by
+  refine ⟨by simp [hammingDist], ?_⟩
+  intro row hrow
+  unfold hammingDist at hrow
+  obtain ⟨i, _, rfl⟩ := List.mem_map.mp hrow
+  simp
+
+theorem ent_hammingDist (n m x y : ℕ) (hx : x < n) (hy : y < m) :
+    ent (hammingDist n m : List (List ℝ)) x y = if x = y then 0 else 1 := by
+  unfold ent hammingDist
+  rw [getD_map _ (List.range n) 0 [] x (by simpa using hx)]
+  rw [vec_range_map m _ y hy]
+  have : (List.range n).getD x 0 = x := by simp [List.getD_eq_getElem?_getD, hx]
+  rw [this]
+  by_cases h : x = y <;> simp [h]
+
+/-! ### The information-bottleneck distortion -/
+
+section IBCore
+variable {ι τ κ : Type}
+
+theorem ib_term (a w px py Q qt r : ℝ) (ha : 0 ≤ a) (hw : 0 ≤ w) (hpx : a ≤ px) (hpy : a ≤ py)
+    (hQ : a * w ≤ Q) (hqt : Q ≤ qt) (hr : qt ≠ 0 → r = Q / qt) :
+    px * (w * ((a / px) * Real.logb 2 ((a / px) / r)))
+      = w * (a * Real.logb 2 (a / (px * py))) - a * w * Real.logb 2 (Q / (qt * py)) := by
+  by_cases h1 : a = 0
+  · simp [h1]
+  by_cases h2 : w = 0
+  · simp [h2]
+  have hapos : 0 < a := lt_of_le_of_ne ha (Ne.symm h1)
+  have hwpos : 0 < w := lt_of_le_of_ne hw (Ne.symm h2)
+  have hpxpos : 0 < px := lt_of_lt_of_le hapos hpx
+  have hpypos : 0 < py := lt_of_lt_of_le hapos hpy
+  have hQpos : 0 < Q := lt_of_lt_of_le (mul_pos hapos hwpos) hQ
+  have hqtpos : 0 < qt := lt_of_lt_of_le hQpos hqt
+  rw [hr hqtpos.ne']
+  have e1 : px * (w * ((a / px) * Real.logb 2 ((a / px) / (Q / qt))))
+      = w * a * Real.logb 2 ((a / px) / (Q / qt)) := by field_simp
+  rw [e1, Real.logb_div (div_ne_zero h1 hpxpos.ne') (div_ne_zero hQpos.ne' hqtpos.ne'),
+    Real.logb_div h1 hpxpos.ne', Real.logb_div hQpos.ne' hqtpos.ne',
+    Real.logb_div h1 (mul_ne_zero hpxpos.ne' hpypos.ne'),
+    Real.logb_div hQpos.ne' (mul_ne_zero hqtpos.ne' hpypos.ne'),
+    Real.logb_mul hpxpos.ne' hpypos.ne', Real.logb_mul hqtpos.ne' hpypos.ne']
+  ring
+
+/-- `Σ_x p_x Σ_t W_xt D(p(·|x) ‖ q(·|t)) = I(X;Y) − I(T;Y)`. -/
+theorem ib_core (s : Finset ι) (t : Finset τ) (u : Finset κ) (a : ι → κ → ℝ) (W : ι → τ → ℝ)
+    (r : τ → κ → ℝ) (ha : ∀ x ∈ s, ∀ y ∈ u, 0 ≤ a x y) (hW : ∀ x ∈ s, ∀ t' ∈ t, 0 ≤ W x t')
+    (hrow : ∀ x ∈ s, ∑ t' ∈ t, W x t' = 1)
+    (hr : ∀ t' ∈ t, ∀ y ∈ u, (∑ y' ∈ u, ∑ x ∈ s, a x y' * W x t') ≠ 0 →
+      r t' y = (∑ x ∈ s, a x y * W x t') / (∑ y' ∈ u, ∑ x ∈ s, a x y' * W x t')) :
+    ∑ x ∈ s, (∑ y ∈ u, a x y) * ∑ t' ∈ t, W x t' *
+        ∑ y ∈ u, (a x y / ∑ y' ∈ u, a x y') * Real.logb 2 ((a x y / ∑ y' ∈ u, a x y') / r t' y)
+      = ∑ x ∈ s, ∑ y ∈ u, a x y * Real.logb 2 (a x y / ((∑ y' ∈ u, a x y') * ∑ x' ∈ s, a x' y))
+        - ∑ t' ∈ t, ∑ y ∈ u, (∑ x ∈ s, a x y * W x t') *
+            Real.logb 2 ((∑ x ∈ s, a x y * W x t')
+              / ((∑ y' ∈ u, ∑ x ∈ s, a x y' * W x t') * ∑ x ∈ s, a x y)) := by
+  have hterm : ∀ x ∈ s, ∀ t' ∈ t, ∀ y ∈ u,
+      (∑ y' ∈ u, a x y') * (W x t' * ((a x y / ∑ y' ∈ u, a x y') *
+          Real.logb 2 ((a x y / ∑ y' ∈ u, a x y') / r t' y)))
+        = W x t' * (a x y * Real.logb 2 (a x y / ((∑ y' ∈ u, a x y') * ∑ x' ∈ s, a x' y)))
+          - a x y * W x t' * Real.logb 2 ((∑ x ∈ s, a x y * W x t')
+              / ((∑ y' ∈ u, ∑ x ∈ s, a x y' * W x t') * ∑ x ∈ s, a x y)) := by
+    intro x hx t' ht y hy
+    apply ib_term _ _ _ _ _ _ _ (ha x hx y hy) (hW x hx t' ht)
+    · exact single_le_sum (f := fun y' => a x y') (fun y' hy' => ha x hx y' hy') hy
+    · exact single_le_sum (f := fun x' => a x' y) (fun x' hx' => ha x' hx' y hy) hx
+    · exact single_le_sum (f := fun x' => a x' y * W x' t')
+        (fun x' hx' => mul_nonneg (ha x' hx' y hy) (hW x' hx' t' ht)) hx
+    · exact single_le_sum (f := fun y' => ∑ x ∈ s, a x y' * W x t')
+        (fun y' hy' => sum_nonneg (fun x' hx' => mul_nonneg (ha x' hx' y' hy') (hW x' hx' t' ht)))
+        hy
+    · exact hr t' ht y hy
+  have e1 : ∑ x ∈ s, (∑ y ∈ u, a x y) * ∑ t' ∈ t, W x t' *
+        ∑ y ∈ u, (a x y / ∑ y' ∈ u, a x y') * Real.logb 2 ((a x y / ∑ y' ∈ u, a x y') / r t' y)
+      = ∑ x ∈ s, ∑ t' ∈ t, ∑ y ∈ u,
+          (W x t' * (a x y * Real.logb 2 (a x y / ((∑ y' ∈ u, a x y') * ∑ x' ∈ s, a x' y)))
+          - a x y * W x t' * Real.logb 2 ((∑ x ∈ s, a x y * W x t')
+              / ((∑ y' ∈ u, ∑ x ∈ s, a x y' * W x t') * ∑ x ∈ s, a x y))) := by
+    apply sum_congr rfl; intro x hx
+    rw [mul_sum]
+    apply sum_congr rfl; intro t' ht
+    rw [mul_sum, mul_sum]
+    apply sum_congr rfl; intro y hy
+    exact hterm x hx t' ht y hy
+  rw [e1]
+  simp only [sum_sub_distrib]
+  congr 1
+  · apply sum_congr rfl; intro x hx
+    rw [sum_comm]
+    apply sum_congr rfl; intro y _
+    rw [← sum_mul, hrow x hx, one_mul]
+  · rw [sum_comm]
+    apply sum_congr rfl; intro t' _
+    rw [sum_comm]
+    apply sum_congr rfl; intro y _
+    exact (sum_mul _ _ _).symm
+
+end IBCore
+
+/-- `Q(t,y) = Σ_x p(x,y) W(t|x)`. -/
+noncomputable def ibQ (pxy W : List (List ℝ)) (n t y : ℕ) : ℝ :=
+  ∑ x ∈ range n, ent pxy x y * ent W x t
+
+/-- `q(t) = Σ_y Q(t,y)`. -/
+noncomputable def ibQt (pxy W : List (List ℝ)) (n k t : ℕ) : ℝ :=
+  ∑ y ∈ range k, ibQ pxy W n t y
+
+theorem ibQyt_row (pxy W : List (List ℝ)) (n m k : ℕ) (hn : 0 < n) (hP : IsMat pxy n k)
+    (hW : IsMat W n m) :
+    ibQyt pxy W = (List.range m).map (fun t =>
+      if ibQt pxy W n k t = 0 then (List.range k).map (fun _ => (1 : ℝ))
+      else (List.range k).map (fun y => ibQ pxy W n t y / ibQt pxy W n k t)) := by
+  cases W with
+  | nil => have := hW.len; simp at this; omega
+  | cons w0 W' =>
+    cases pxy with
+    | nil => have := hP.len; simp at this; omega
+    | cons r0 P' =>
+      have hw0 : w0.length = m := hW.row w0 List.mem_cons_self
+      have hr0 : r0.length = k := hP.row r0 List.mem_cons_self
+      unfold ibQyt
+      simp only
+      rw [hw0, hr0]
+      apply List.map_congr_left
+      intro t _
+      have hcol : (List.range k).map (fun y => lsum (List.zipWith
+            (fun prow wrow => prow.getD y 0 * wrow.getD t 0) (r0 :: P') (w0 :: W')))
+          = (List.range k).map (fun y => ibQ (r0 :: P') (w0 :: W') n t y) := by
+        apply List.map_congr_left
+        intro y _
+        rw [lsum_eq_sum, sum_zipWith_range _ [] [] _ _ n hP.len hW.len]
+        rfl
+      rw [hcol]
+      have hz : lsum ((List.range k).map (fun y => ibQ (r0 :: P') (w0 :: W') n t y))
+          = ibQt (r0 :: P') (w0 :: W') n k t := by
+        rw [lsum_eq_sum, sum_range_map]; rfl
+      rw [hz]
+      by_cases h0 : ibQt (r0 :: P') (w0 :: W') n k t = 0
+      · simp [h0, Function.comp_def]
+      · simp [h0]
+
+theorem ibQyt_isMat (pxy W : List (List ℝ)) (n m k : ℕ) (hn : 0 < n) (hP : IsMat pxy n k)
+    (hW : IsMat W n m) : IsMat (ibQyt pxy W) m k := by
+  rw [ibQyt_row pxy W n m k hn hP hW]
+  refine ⟨by simp, ?_⟩
+  intro row hrow
+  obtain ⟨t, _, rfl⟩ := List.mem_map.mp hrow
+  split <;> simp
+
+theorem ent_ibQyt (pxy W : List (List ℝ)) (n m k : ℕ) (hn : 0 < n) (hP : IsMat pxy n k)
+    (hW : IsMat W n m) (t y : ℕ) (ht : t < m) (hy : y < k) :
+    ent (ibQyt pxy W) t y
+      = if ibQt pxy W n k t = 0 then 1 else ibQ pxy W n t y / ibQt pxy W n k t := by
+  rw [ibQyt_row pxy W n m k hn hP hW]
+  unfold ent
+  rw [getD_map _ (List.range m) 0 [] t (by simpa using ht)]
+  have : (List.range m).getD t 0 = t := by simp [List.getD_eq_getElem?_getD, ht]
+  rw [this]
+  split
+  · rw [vec_range_map k _ y hy]
+  · rw [vec_range_map k _ y hy]
+
+/-- `q(t) = Σ_x p(x) W(t|x)` with `p(x) = Σ_y p(x,y)`. -/
+theorem ibQt_eq (pxy W : List (List ℝ)) (n k t : ℕ) :
+    ibQt pxy W n k t = ∑ x ∈ range n, (∑ y ∈ range k, ent pxy x y) * ent W x t := by
+  unfold ibQt ibQ
+  rw [sum_comm]
+  apply sum_congr rfl; intro x _
+  rw [sum_mul]
+
+theorem ibQ_nonneg (pxy W : List (List ℝ)) (n m k : ℕ)
+    (hPnn : ∀ x < n, ∀ y < k, 0 ≤ ent pxy x y) (hW : IsChannel W n m) (t y : ℕ) (hy : y < k) :
+    0 ≤ ibQ pxy W n t y :=
+  sum_nonneg (fun x hx => mul_nonneg (hPnn x (mem_range.mp hx) y hy) (hW.ent_nonneg x t))
+
+/-- Rows of `ibQyt` at bottleneck values of positive probability are probability vectors. -/
+theorem ibQyt_row_isLaw (pxy W : List (List ℝ)) (n m k : ℕ) (hn : 0 < n) (hP : IsMat pxy n k)
+    (hPnn : ∀ x < n, ∀ y < k, 0 ≤ ent pxy x y) (hW : IsChannel W n m) (t : ℕ) (ht : t < m)
+    (hqt : ibQt pxy W n k t ≠ 0) : IsLaw ((ibQyt pxy W).getD t []) k := by
+  have hM := ibQyt_isMat pxy W n m k hn hP hW.isMat
+  apply isLaw_of_vec _ k (hM.row_len ht)
+  · intro y hy
+    have := ent_ibQyt pxy W n m k hn hP hW.isMat t y ht hy
+    unfold ent at this
+    rw [this, if_neg hqt]
+    apply div_nonneg (ibQ_nonneg pxy W n m k hPnn hW t y hy)
+    exact sum_nonneg (fun y' hy' => ibQ_nonneg pxy W n m k hPnn hW t y' (mem_range.mp hy'))
+  · have e : ∀ y ∈ range k, vec ((ibQyt pxy W).getD t []) y
+        = ibQ pxy W n t y / ibQt pxy W n k t := by
+      intro y hy
+      have := ent_ibQyt pxy W n m k hn hP hW.isMat t y ht (mem_range.mp hy)
+      unfold ent at this
+      rw [this, if_neg hqt]
+    rw [sum_congr rfl e, ← sum_div]
+    exact div_self hqt
+
+theorem ibDist_isMat (pxy W : List (List ℝ)) (n m k : ℕ) (hn : 0 < n) (hP : IsMat pxy n k)
+    (hW : IsMat W n m) : IsMat (ibDist (Real.logb 2) pxy W) n m := by
+  have hM := ibQyt_isMat pxy W n m k hn hP hW
+  refine ⟨by simp [ibDist, hP.len], ?_⟩
+  intro row hrow
+  unfold ibDist at hrow
+  obtain ⟨pr, _, rfl⟩ := List.mem_map.mp hrow
+  simp [hM.len]
+
+theorem ent_ibDist (pxy W : List (List ℝ)) (n m k : ℕ) (hn : 0 < n) (hP : IsMat pxy n k)
+    (hW : IsMat W n m) (x t : ℕ) (hx : x < n) (ht : t < m) :
+    ent (ibDist (Real.logb 2) pxy W) x t
+      = ∑ y ∈ range k, (ent pxy x y / ∑ y' ∈ range k, ent pxy x y') *
+          Real.logb 2 ((ent pxy x y / ∑ y' ∈ range k, ent pxy x y') / ent (ibQyt pxy W) t y) := by
+  have hM := ibQyt_isMat pxy W n m k hn hP hW
+  have hx' : x < pxy.length := by rw [hP.len]; exact hx
+  have hrl : (pxy.getD x []).length = k := hP.row_len hx
+  unfold ent ibDist
+  simp only
+  rw [getD_map _ pxy [] [] x hx']
+  unfold vec
+  rw [getD_map _ (ibQyt pxy W) [] 0 t (by rw [hM.len]; exact ht),
+    klRow_eq _ _ k (by rw [List.length_map]; exact hrl) (hM.row_len ht)]
+  apply sum_congr rfl
+  intro y _
+  have hz : lsum (pxy.getD x []) = ∑ y' ∈ range k, (pxy.getD x []).getD y' 0 := by
+    have := sum_map_range (fun a => a) 0 (pxy.getD x []) k hrl
+    rw [List.map_id'] at this
+    rw [lsum_eq_sum, this]
+  rw [vec_map_div, hz]
+  rfl
+
+/-- Gibbs: the IB distortion `D(p(·|x) ‖ q(·|t))` is non-negative when `p(x) > 0`, `q(t) > 0`
+and `q(·|t)` dominates `p(·|x)`. -/
+theorem ibDist_nonneg (pxy W : List (List ℝ)) (n m k : ℕ) (hn : 0 < n) (hP : IsMat pxy n k)
+    (hPnn : ∀ x < n, ∀ y < k, 0 ≤ ent pxy x y) (hW : IsChannel W n m) (x t : ℕ) (hx : x < n)
+    (ht : t < m) (hpx : ∑ y ∈ range k, ent pxy x y ≠ 0) (hqt : ibQt pxy W n k t ≠ 0)
+    (hdom : ∀ y < k, ent (ibQyt pxy W) t y = 0 → ent pxy x y = 0) :
+    0 ≤ ent (ibDist (Real.logb 2) pxy W) x t := by
+  rw [ent_ibDist pxy W n m k hn hP hW.isMat x t hx ht]
+  have hpxpos : 0 < ∑ y ∈ range k, ent pxy x y :=
+    lt_of_le_of_ne (sum_nonneg (fun y hy => hPnn x hx y (mem_range.mp hy))) (Ne.symm hpx)
+  have hlaw := ibQyt_row_isLaw pxy W n m k hn hP hPnn hW t ht hqt
+  apply Lemmas.InfoReal.gibbs (range k) (fun y => ent pxy x y / ∑ y' ∈ range k, ent pxy x y')
+    (fun y => ent (ibQyt pxy W) t y)
+  · intro y hy; exact div_nonneg (hPnn x hx y (mem_range.mp hy)) hpxpos.le
+  · intro y _; exact hlaw.vec_nonneg y
+  · rw [← sum_div, div_self hpx]; exact le_of_eq hlaw.sum_vec
+  · intro y hy h0
+    rw [hdom y (mem_range.mp hy) h0, zero_div]
+
+/-- Domination is automatic where the channel puts mass: `p(x) W(t|x) > 0`. -/
+theorem ibQyt_dom (pxy W : List (List ℝ)) (n m k : ℕ) (hn : 0 < n) (hP : IsMat pxy n k)
+    (hPnn : ∀ x < n, ∀ y < k, 0 ≤ ent pxy x y) (hW : IsChannel W n m) (x t : ℕ) (hx : x < n)
+    (ht : t < m) (hpx : ∑ y ∈ range k, ent pxy x y ≠ 0) (hw : ent W x t ≠ 0) :
+    ibQt pxy W n k t ≠ 0 ∧ ∀ y < k, ent (ibQyt pxy W) t y = 0 → ent pxy x y = 0 := by
+  have hwpos : 0 < ent W x t := lt_of_le_of_ne (hW.ent_nonneg x t) (Ne.symm hw)
+  have hpxpos : 0 < ∑ y ∈ range k, ent pxy x y :=
+    lt_of_le_of_ne (sum_nonneg (fun y hy => hPnn x hx y (mem_range.mp hy))) (Ne.symm hpx)
+  have hqt : 0 < ibQt pxy W n k t := by
+    rw [ibQt_eq]
+    refine lt_of_lt_of_le (mul_pos hpxpos hwpos) ?_
+    exact single_le_sum (f := fun x' => (∑ y ∈ range k, ent pxy x' y) * ent W x' t)
+      (fun x' hx' => mul_nonneg (sum_nonneg (fun y hy =>
+        hPnn x' (mem_range.mp hx') y (mem_range.mp hy))) (hW.ent_nonneg x' t)) (mem_range.mpr hx)
+  refine ⟨hqt.ne', ?_⟩
+  intro y hy h0
+  rw [ent_ibQyt pxy W n m k hn hP hW.isMat t y ht hy, if_neg hqt.ne'] at h0
+  have hQ0 : ibQ pxy W n t y = 0 := by
+    rcases div_eq_zero_iff.mp h0 with h | h
+    · exact h
+    · exact absurd h hqt.ne'
+  have hle : ent pxy x y * ent W x t ≤ ibQ pxy W n t y :=
+    single_le_sum (f := fun x' => ent pxy x' y * ent W x' t)
+      (fun x' hx' => mul_nonneg (hPnn x' (mem_range.mp hx') y hy) (hW.ent_nonneg x' t))
+      (mem_range.mpr hx)
+  rw [hQ0] at hle
+  by_contra hne
+  have : 0 < ent pxy x y * ent W x t :=
+    mul_pos (lt_of_le_of_ne (hPnn x hx y hy) (Ne.symm hne)) hwpos
+  linarith
+
+/-- `E[d_IB] = I(X;Y) − I(T;Y)`. `Q` is any `m × k` matrix holding `Q(t,y) = Σ_x p(x,y) W(t|x)`. -/
+theorem ib_expected_distortion (pxy W Q : List (List ℝ)) (n m k : ℕ) (hP : IsMat pxy n k)
+    (hPnn : ∀ x < n, ∀ y < k, 0 ≤ ent pxy x y) (hW : IsChannel W n m) (hn : 0 < n)
+    (hQ : IsMat Q m k) (hQe : ∀ t < m, ∀ y < k, ent Q t y = ibQ pxy W n t y) :
+    baAvDist (rowSums pxy) W (ibDist (Real.logb 2) pxy W)
+      = jointMI (Real.logb 2) pxy - jointMI (Real.logb 2) Q := by
+  rw [baAvDist_eq _ W _ n m (by simp [rowSums, hP.len]) hW.isMat
+    (ibDist_isMat pxy W n m k hn hP hW.isMat), jointMI_eq pxy n k hP, jointMI_eq Q m k hQ]
+  have h := ib_core (range n) (range m) (range k) (ent pxy) (ent W) (ent (ibQyt pxy W))
+    (fun x hx y hy => hPnn x (mem_range.mp hx) y (mem_range.mp hy))
+    (fun x _ t _ => hW.ent_nonneg x t) (fun x hx => hW.sum_ent (mem_range.mp hx))
+    (fun t ht y hy hne => by
+      rw [ent_ibQyt pxy W n m k hn hP hW.isMat t y (mem_range.mp ht) (mem_range.mp hy)]
+      have : ibQt pxy W n k t = ∑ y' ∈ range k, ∑ x ∈ range n, ent pxy x y' * ent W x t := rfl
+      rw [if_neg (by rw [this]; exact hne)]
+      rfl)
+  refine Eq.trans ?_ (Eq.trans h ?_)
+  · apply sum_congr rfl; intro x hx
+    rw [vec_rowSums pxy n k hP x (mem_range.mp hx)]
+    congr 1
+    apply sum_congr rfl; intro t ht
+    rw [ent_ibDist pxy W n m k hn hP hW.isMat x t (mem_range.mp hx) (mem_range.mp ht)]
+  · congr 1
+    · apply sum_congr rfl; intro x hx
+      apply sum_congr rfl; intro y hy
+      rw [vec_rowSums pxy n k hP x (mem_range.mp hx), vec_colSums pxy n k hP y (mem_range.mp hy)]
+    · apply sum_congr rfl; intro t ht
+      apply sum_congr rfl; intro y hy
+      have hcol : vec (colSums Q) y = ∑ x ∈ range n, ent pxy x y := by
+        rw [vec_colSums Q m k hQ y (mem_range.mp hy),
+          sum_congr rfl (fun t' ht' => hQe t' (mem_range.mp ht') y (mem_range.mp hy))]
+        unfold ibQ
+        rw [sum_comm]
+        apply sum_congr rfl; intro x' hx'
+        rw [← mul_sum, hW.sum_ent (mem_range.mp hx'), mul_one]
+      have hrowQ : vec (rowSums Q) t = ∑ y' ∈ range k, ∑ x ∈ range n, ent pxy x y' * ent W x t := by
+        rw [vec_rowSums Q m k hQ t (mem_range.mp ht)]
+        exact sum_congr rfl (fun y' hy' => hQe t (mem_range.mp ht) y' (mem_range.mp hy'))
+      rw [hcol, hrowQ, hQe t (mem_range.mp ht) y (mem_range.mp hy)]
+      rfl
+
+/-- A concrete matrix for `Q(t,y)`. -/
+noncomputable def ibJointTY (pxy W : List (List ℝ)) (n m k : ℕ) : List (List ℝ) :=
+  (List.range m).map (fun t => (List.range k).map (fun y => ibQ pxy W n t y))
+
+theorem ibJointTY_isMat (pxy W : List (List ℝ)) (n m k : ℕ) : IsMat (ibJointTY pxy W n m k) m k := by
+  refine ⟨by simp [ibJointTY], ?_⟩
+  intro row hrow
+  unfold ibJointTY at hrow
+  obtain ⟨t, _, rfl⟩ := List.mem_map.mp hrow
+  simp
+
+theorem ent_ibJointTY (pxy W : List (List ℝ)) (n m k t y : ℕ) (ht : t < m) (hy : y < k) :
+    ent (ibJointTY pxy W n m k) t y = ibQ pxy W n t y := by
+  unfold ent ibJointTY
+  rw [getD_map _ (List.range m) 0 [] t (by simpa using ht), vec_range_map k _ y hy]
+  have : (List.range m).getD t 0 = t := by simp [List.getD_eq_getElem?_getD, ht]
+  rw [this]
+
+
+/-! ### Concrete instances (used by the non-vacuity examples of Props/C13BA.lean) -/
+
+theorem ex_hamming : (hammingDist 2 2 : List (List ℝ)) = [[0, 1], [1, 0]] := by
+  simp [hammingDist, List.range_succ]
+
+/-- Uniform binary source, Hamming distortion, `β = 1`: BSC(1/3) is a fixed point. -/
+theorem ex_fix : (baStep (fun x => (2 : ℝ) ^ x) 1 [1 / 2, 1 / 2] (fun _ => hammingDist 2 2)
+    (bsc (1 / 3))).1 = bsc (1 / 3) := by
+  rw [baStep_fst, bsc_out, ex_hamming]
+  simp only [baNextW, bsc, lsum, List.map, List.zipWith, List.foldl]
+  norm_num [Real.rpow_neg_one]
+
+theorem ex_fix_pos : ∀ y < 2, 0 < vec (outputLaw [(1 : ℝ) / 2, 1 / 2] (bsc (1 / 3))) y := by
+  rw [bsc_out]
+  intro y hy
+  interval_cases y <;> norm_num [vec]
+
+theorem ex_law34 : IsLaw [(3 : ℝ) / 4, 1 / 4] 2 :=
+  ⟨rfl, by intro a ha; simp at ha; rcases ha with rfl | rfl <;> norm_num, by norm_num⟩
+
+theorem ex_collapse : IsChannel [[(1 : ℝ), 0], [1, 0]] 2 2 := by
+  refine ⟨rfl, ?_⟩
+  intro row hrow
+  simp only [List.mem_cons, List.not_mem_nil, or_false, or_self] at hrow
+  subst hrow
+  exact ⟨rfl, by intro a ha; simp at ha; rcases ha with rfl | rfl <;> norm_num, by norm_num⟩
+
+theorem ex_kkt_out : outputLaw [(3 : ℝ) / 4, 1 / 4] [[1, 0], [1, 0]] = [1, 0] := by
+  simp [outputLaw, lsum, List.range_succ]; norm_num
+
+/-- Source `(3/4, 1/4)`, Hamming, `β = 1`: the channel sending everything to output `0` is a
+fixed point with a zero output marginal … -/
+theorem ex_kkt_fix : (baStep (fun x => (2 : ℝ) ^ x) 1 [3 / 4, 1 / 4] (fun _ => hammingDist 2 2)
+    [[1, 0], [1, 0]]).1 = [[1, 0], [1, 0]] := by
+  rw [baStep_fst, ex_hamming, ex_kkt_out]
+  simp only [baNextW, lsum, List.map, List.zipWith, List.foldl]
+  norm_num [Real.rpow_neg_one]
+
+/-- … and its column constraint on the unused output letter is `7/8 ≤ 1`. -/
+theorem ex_kkt_c : ∀ y < 2, vec (outputLaw [(3 : ℝ) / 4, 1 / 4] [[1, 0], [1, 0]]) y = 0 →
+    ∑ x ∈ range 2, vec [(3 : ℝ) / 4, 1 / 4] x
+      * (1 / ∑ y' ∈ range 2, vec (outputLaw [(3 : ℝ) / 4, 1 / 4] [[1, 0], [1, 0]]) y'
+          * (2 : ℝ) ^ (-(1 * ent (hammingDist 2 2) x y')))
+      * (2 : ℝ) ^ (-(1 * ent (hammingDist 2 2) x y)) ≤ 1 := by
+  rw [ex_kkt_out, ex_hamming]
+  intro y hy h0
+  interval_cases y
+  · norm_num [vec] at h0
+  · norm_num [sum_range_succ, vec, ent, Real.rpow_neg_one]
+
+/-- A joint law `p(x,y)` for the information-bottleneck examples. -/
+theorem ex_pxy : IsMat [[(1 : ℝ) / 4, 1 / 4], [0, 1 / 2]] 2 2
+    ∧ ∀ x < 2, ∀ y < 2, 0 ≤ ent [[(1 : ℝ) / 4, 1 / 4], [0, 1 / 2]] x y := by
+  refine ⟨⟨rfl, ?_⟩, ?_⟩
+  · intro row hrow
+    simp only [List.mem_cons, List.not_mem_nil, or_false] at hrow
+    rcases hrow with rfl | rfl <;> rfl
+  · intro x hx y hy
+    interval_cases x <;> interval_cases y <;> norm_num [ent, vec]
 
 
 end Dit.Lemmas.BA
